@@ -19,7 +19,7 @@ theorem preachable_induction (k : Cfg) (I : St → Prop) (h0 : I {})
   exact this ls {} h0 hr
 
 theorem ppop_some {s s' : St} (h : ppop s = some s') :
-    ∃ s1, pop s = some s1 ∧ (s' = s1 ∨ (s1.items = [] ∧ s' = condSignal { s1 with size := 0 })) := by
+    ∃ s1, pop s = some s1 ∧ (s' = s1 ∨ (s1.items = [] ∧ s' = condBroadcast { s1 with size := 0 })) := by
   unfold ppop at h
   cases hp : pop s with
   | none => simp [hp] at h
@@ -80,14 +80,14 @@ theorem InvH.ppop {s s' : St} (h : InvH s) (hp : ppop s = some s') : InvH s' := 
   · rw [h2]; exact h.pop h1
   · rw [h2]
     have h0 : InvH { s1 with size := 0 } := (h.pop h1).of_ps rfl rfl rfl rfl (fun q => Or.inl rfl)
-    exact h0.condSignal
+    exact h0.condBroadcast
 
 theorem InvH.pfinish {s : St} {id : Nat} {el : Int} {e : Nat} (h : InvH s) : InvH (pfinish s id el e) := by
   unfold OtelVerif.C02.pfinish
   have h0 : InvH { s with size := (if s.size - el < 0 then 0 else s.size - el),
                           inflight := s.inflight.filter (fun x => x.1 != id), finished := s.finished ++ [id],
                           outcomes := s.outcomes ++ [(id, e)] } := h.of_ps rfl rfl rfl rfl (fun q => Or.inl rfl)
-  exact h0.condSignal
+  exact h0.condBroadcast
 
 theorem InvH.pstep {k : Cfg} {s s' : St} {l : Label} (h : InvH s) (hf : pfire k s l = some s') : InvH s' := by
   cases l with
@@ -184,14 +184,14 @@ theorem InvC.ppop {k : Cfg} {s s' : St} (h : InvC k s) (hp : ppop s = some s') :
     rw [h2]
     have h0 : InvC k { ({ s with items := t, inflight := s.inflight ++ [(id, el)], handed := s.handed ++ [id] } : St) with size := 0 } :=
       h.congr rfl rfl
-    exact h0.condSignal
+    exact h0.condBroadcast
 
 theorem InvC.pfinish {k : Cfg} {s : St} {id : Nat} {el : Int} {e : Nat} (h : InvC k s) : InvC k (pfinish s id el e) := by
   unfold OtelVerif.C02.pfinish
   have h0 : InvC k { s with size := (if s.size - el < 0 then 0 else s.size - el),
                             inflight := s.inflight.filter (fun x => x.1 != id), finished := s.finished ++ [id],
                             outcomes := s.outcomes ++ [(id, e)] } := h.congr rfl rfl
-  exact h0.condSignal
+  exact h0.condBroadcast
 
 theorem InvC.pstep {k : Cfg} {s s' : St} {l : Label} (h : InvC k s) (hsz : s.size ≤ k.cap)
     (hf : pfire k s l = some s') : InvC k s' := by
@@ -339,7 +339,7 @@ theorem InvZp.ppop {k : Cfg} {s s' : St} (h : InvZp k s) (hp : ppop s = some s')
         have := sumSz_nonneg0 _ hz.posF
         simp only []; omega
       · have := hz.nonneg; have := hz.le; simp only []; omega
-    obtain ⟨c1, c2, c3, _, _, _, _, _, c9, c10, _⟩ := condSignal_fields { s1 with size := 0 }
+    obtain ⟨c1, c2, c3, _, _, _, _, _, c9, c10, _⟩ := condBroadcast_fields { s1 with size := 0 }
     exact h0.congr c1 c2 c3 c9 c10
 
 theorem InvZp.inflight_keys_nodup {k : Cfg} {s : St} (h : InvZp k s) (hH : InvH s) : (s.inflight.map Prod.fst).Nodup := by
@@ -366,7 +366,7 @@ theorem InvZp.pfinish {k : Cfg} {s : St} {id : Nat} {el : Int} {e : Nat} (h : In
     · simp only [List.append_assoc, List.singleton_append]
       exact h.hperm.trans (List.Perm.append_left _ r2)
   unfold OtelVerif.C02.pfinish
-  obtain ⟨c1, c2, c3, _, _, _, _, _, c9, c10, _⟩ := condSignal_fields
+  obtain ⟨c1, c2, c3, _, _, _, _, _, c9, c10, _⟩ := condBroadcast_fields
     { s with size := (if s.size - el < 0 then 0 else s.size - el), inflight := s.inflight.filter (fun x => x.1 != id),
              finished := s.finished ++ [id], outcomes := s.outcomes ++ [(id, e)] }
   exact h0.congr c1 c2 c3 c9 c10
@@ -562,7 +562,7 @@ theorem InvWp.pstep {k : Cfg} {s s' : St} {l : Label} (h : InvWp s) (hC : InvC k
           · obtain ⟨id, el, t, _, rfl⟩ := pop_some h1
             rw [h2]; intro _
             refine Or.inl (Or.inr ?_)
-            rw [(condSignal_fields _).2.1]; simp
+            rw [(condBroadcast_fields _).2.1]; simp
         · cases hf; exact h.of_sig rfl (fun a => a) (fun _ a => a)
   | recheck c =>
     simp only [pfire] at hf
@@ -578,7 +578,7 @@ theorem InvWp.pstep {k : Cfg} {s s' : St} {l : Label} (h : InvWp s) (hC : InvC k
             rw [h2]; intro _
             refine Or.inl (Or.inr ?_)
             simp only []
-            rw [(condSignal_fields _).2.1]; simp
+            rw [(condBroadcast_fields _).2.1]; simp
         · cases hf; exact h.of_sig rfl (fun a => a) (fun _ a => a)
     · cases hf
   | complete id e =>
@@ -587,8 +587,7 @@ theorem InvWp.pstep {k : Cfg} {s s' : St} {l : Label} (h : InvWp s) (hC : InvC k
     · rename_i el _; cases hf
       unfold pfinish
       intro hne
-      obtain ⟨w, _, hw2⟩ := condSignal_W _ hne
-      exact Or.inr ⟨w, hw2⟩
+      exact absurd rfl hne
     · cases hf
   | shutdown => simp only [pfire] at hf; cases hf; exact h.of_sig rfl (fun a => a) (fun _ a => a)
 
